@@ -288,7 +288,8 @@ impl DataStorage {
             );
         });
         self.applied_pack_ids.insert(pack_digest.clone());
-        self.stage.clear();
+        // The stage is dropped by the caller (unstage) once the delta that references
+        // this pack has been written, so that a retry produces the same pack again
         Ok(Some(pack_digest))
     }
 
